@@ -39,10 +39,23 @@ type Solver struct {
 	SentBytes int64
 	Log       io.Writer
 	tmo       int
+	// Dead is set when the solver process was killed by the watchdog (it ignored its own time
+	// limit) or died; Restart brings up a fresh process with an empty stack.
+	Dead  bool
+	Kills int
 }
 
 func NewSolver(kind string, ctx *Ctx, timeoutMs int) (*Solver, error) {
+	s := &Solver{Kind: kind, ctx: ctx, tmo: timeoutMs}
+	if err := s.start(); err != nil {
+		return nil, err
+	}
+	return s, nil
+}
+
+func (s *Solver) start() error {
 	var cmd *exec.Cmd
+	kind, timeoutMs := s.Kind, s.tmo
 	switch kind {
 	case "z3":
 		cmd = exec.Command("z3", "-in", "-t:"+strconv.Itoa(timeoutMs))
@@ -53,30 +66,43 @@ func NewSolver(kind string, ctx *Ctx, timeoutMs int) (*Solver, error) {
 	case "cvc5-int":
 		cmd = exec.Command("cvc5", "--incremental", "--lang=smt2", "--solve-bv-as-int=sum", "--tlimit-per="+strconv.Itoa(timeoutMs))
 	default:
-		return nil, fmt.Errorf("unknown solver %q", kind)
+		return fmt.Errorf("unknown solver %q", kind)
 	}
 	in, err := cmd.StdinPipe()
 	if err != nil {
-		return nil, err
+		return err
 	}
 	outp, err := cmd.StdoutPipe()
 	if err != nil {
-		return nil, err
+		return err
 	}
 	cmd.Stderr = cmd.Stdout
 	if err := cmd.Start(); err != nil {
-		return nil, err
+		return err
 	}
-	s := &Solver{Kind: kind, cmd: cmd, in: in, out: bufio.NewReaderSize(outp, 1<<20), ctx: ctx,
-		defined: map[int]bool{}, declUF: map[string]bool{}, tmo: timeoutMs}
+	s.cmd, s.in, s.out = cmd, in, bufio.NewReaderSize(outp, 1<<20)
+	s.defined, s.declUF = map[int]bool{}, map[string]bool{}
+	s.depth = 0
+	s.Dead = false
 	s.send("(set-option :global-declarations true)\n(set-option :produce-models true)\n")
 	if strings.HasPrefix(kind, "cvc5") {
 		s.send("(set-logic ALL)\n")
 	}
 	if _, err := s.sync(); err != nil {
-		return nil, err
+		return err
 	}
-	return s, nil
+	return nil
+}
+
+// Restart replaces a dead solver process by a fresh one (empty assertion stack, nothing defined).
+func (s *Solver) Restart() error {
+	if s.cmd != nil {
+		s.in.Close()
+		s.cmd.Process.Kill()
+		s.cmd.Wait()
+		s.cmd = nil
+	}
+	return s.start()
 }
 
 func (s *Solver) Close() {
@@ -105,9 +131,22 @@ func (s *Solver) sync() ([]string, error) {
 	mark := "SYNC-" + strconv.Itoa(s.seq)
 	s.send("(echo \"" + mark + "\")\n")
 	var lines []string
+	// watchdog: some solver phases ignore the soft time limit; a query that is still running at
+	// several times its limit is abandoned by killing the process (the caller restarts it and
+	// treats the query as unknown)
+	hard := time.Duration(3*s.tmo)*time.Millisecond + 15*time.Second
+	proc := s.cmd.Process
+	killed := false
+	wd := time.AfterFunc(hard, func() { killed = true; proc.Kill() })
+	defer wd.Stop()
 	for {
 		line, err := s.out.ReadString('\n')
 		if err != nil {
+			s.Dead = true
+			if killed {
+				s.Kills++
+				return lines, fmt.Errorf("solver %s killed by watchdog after %v", s.Kind, hard)
+			}
 			return lines, fmt.Errorf("solver %s died: %v (%v)", s.Kind, err, lines)
 		}
 		line = strings.TrimSpace(line)
